@@ -598,4 +598,69 @@ theorem shutBlobber_frame13 {s s' : State} {i : Nat} (h : shutBlobber s i false 
     · rfl
   · cases h
 
+/-- one allocation slot is rewritten; for every blobber both sides of each equality move by the same amount -/
+theorem inv13_set_delta {s s' : State} {k : Nat} {oa' : Option Alloc} (hk : k < s.nallocs)
+    (hal : s'.allocs = s.allocs.set k oa') (hn : s'.nallocs = s.nallocs)
+    (hA : ∀ i, ∃ p q : Nat, allocSum BA.size i oa' + q = allocSum BA.size i (s.allocs k) + p ∧
+        (s'.blobbers i).map (·.allocated) = (s.blobbers i).map (fun b => b.allocated + (p : Int) - (q : Int)) ∧
+        (s.blobbers i = none → p = 0 ∧ q = 0))
+    (hO : ∀ i, ∃ p q : Nat, allocSum BA.offer i oa' + q = allocSum BA.offer i (s.allocs k) + p ∧
+        (s'.sps i).map (fun sp => sp.offers + q) = (s.sps i).map (fun sp => sp.offers + p) ∧
+        (s.sps i = none → p = 0 ∧ q = 0))
+    (h : Inv13 s) : Inv13 s' := by
+  refine inv13_delta (wf_set h.1 hk hal hn) (fun i => ?_) (fun i => ?_) h
+  · obtain ⟨p, q, e, v, z⟩ := hA i
+    have := total_set (m := BA.size) hk hal hn i
+    exact ⟨p, q, by omega, v, z⟩
+  · obtain ⟨p, q, e, v, z⟩ := hO i
+    have := total_set (m := BA.offer) hk hal hn i
+    exact ⟨p, q, by omega, v, z⟩
+
+/-- views of a map updated at one key -/
+theorem view_set_same {α β : Type} (m : Map α) (j : Nat) (v : α) (f : α → β) : ((m.set j (some v)) j).map f = some (f v) := by
+  rw [Map.set_same]; rfl
+
+theorem view_set_other {α β : Type} (m : Map α) {j x : Nat} (v : Option α) (f : α → β) (h : x ≠ j) :
+    ((m.set j v) x).map f = (m x).map f := by
+  rw [Map.set_other _ _ h]
+
+theorem map_id_int (o : Option Blobber) : o.map (fun b => b.allocated + ((0 : Nat) : Int) - ((0 : Nat) : Int)) = o.map (·.allocated) := by
+  cases o <;> simp
+
+/-- add one blobber allocation to allocation `k` (changeBlobbers without removal) -/
+theorem inv13_add_core {s s' : State} {k ai : Nat} {a a' : Alloc} {ba : BA} {nb nb' : Blobber} {spa spa' : SP}
+    (h : Inv13 s) (ha : s.allocs k = some a) (hal : s'.allocs = s.allocs.set k (some a')) (hn : s'.nallocs = s.nallocs)
+    (hbas : a'.bas = a.bas ++ [ba]) (hba : ba.blobber = ai)
+    (hnb : s.blobbers ai = some nb) (hbl : s'.blobbers = s.blobbers.set ai (some nb')) (hnb' : nb'.allocated = nb.allocated + ba.size)
+    (hspa : s.sps ai = some spa) (hsp : s'.sps = s.sps.set ai (some spa')) (hspa' : spa'.offers = spa.offers + ba.offer) :
+    Inv13 s' := by
+  have hk := h.1.lt ha
+  refine inv13_set_delta hk hal hn (fun i => ?_) (fun i => ?_) h
+  · by_cases hx : i = ai
+    · subst hx
+      refine ⟨ba.size, 0, ?_, ?_, fun hn => by rw [hnb] at hn; cases hn⟩
+      · rw [ha]; simp only [allocSum, hbas, baSum_append, hba, if_true]; omega
+      · rw [hbl, view_set_same, hnb]; simp only [Option.map_some] <;> (congr 1; omega)
+    · refine ⟨0, 0, ?_, ?_, fun _ => ⟨rfl, rfl⟩⟩
+      · have : ¬ ba.blobber = i := by rw [hba]; exact fun e => hx e.symm
+        rw [ha]; simp only [allocSum, hbas, baSum_append, this, if_false]
+      · rw [hbl, view_set_other _ _ _ hx, map_id_int]
+  · by_cases hx : i = ai
+    · subst hx
+      refine ⟨ba.offer, 0, ?_, ?_, fun hn => by rw [hspa] at hn; cases hn⟩
+      · rw [ha]; simp only [allocSum, hbas, baSum_append, hba, if_true]; omega
+      · rw [hsp, view_set_same, hspa]; simp only [Option.map_some] <;> (congr 1; omega)
+    · refine ⟨0, 0, ?_, ?_, fun _ => ⟨rfl, rfl⟩⟩
+      · have : ¬ ba.blobber = i := by rw [hba]; exact fun e => hx e.symm
+        rw [ha]; simp only [allocSum, hbas, baSum_append, this, if_false]
+      · rw [hsp, view_set_other _ _ _ hx]
+
+theorem updAdd_inv13 {s s' : State} {k ai : Nat} (h : updAdd s k ai = .ok s') (hi : Inv13 s) : Inv13 s' := by
+  unfold updAdd at h
+  split at h
+  · rename_i a nb spa ha hnb hspa
+    ok_branches h
+    exact inv13_add_core hi ha rfl rfl rfl rfl hnb rfl rfl hspa rfl rfl
+  · cases h
+
 end ZChain.Storage
